@@ -76,41 +76,51 @@ class GrTranslation(Unit):
     timeout = 30
     solver_opts = {"rounds": 4}
 
-    def __init__(self, K):
+    def __init__(self, K, g=None):
+        import contracts.C07_units as U
         self.K = K
+        self.g = g or U.TRANSLATION
         self.qualname = f"gr.{C03.METHODS[K]}"
 
     @property
     def name(self):
-        return f"translation:{self.qualname}"
+        return f"{self.g.key}:{self.qualname}"
 
     def cases(self):
         return ["d=2", "d=3"]
 
+    def geo(self, inp):
+        import contracts.C07_units as U
+        return U.traj_geo(inp)
+
     def setup(self, ctx, case):
         d = int(case[2])
         o, inp = C03._setup_self(ctx, d, self.K, None)
-        tv = z3.Function("TVEC", z3.IntSort(), z3.IntSort(), z3.RealSort())
-        tr2 = inp["tr"].view(pos_map=lambda t, s, i, c, base: sv.add(base, sv.SV(tv(sv.znum(s), sv.znum(c)))))
+        geo = self.geo(inp)
+        tr2 = inp["tr"].view(pos_map=lambda t, s, i, c, base: self.g.pos(geo, s, i, c, True))
         inp.update(o=o, tr2=tr2, k=ctx.int("k"))
         return [o], {}, inp
 
     def clause_names(self, case):
-        return [f"{name}:unchanged-under-translation" for name, _ in C03.columns(self.K)]
+        return [f"{name}:{self.g.what}" for name, _ in C03.columns(self.K)]
 
     def ensures(self, ctx, case, inp, out):
         from pyvc.pandas_model import df_content
         res1 = out.value
-        o2 = _second_gr(ctx, inp["o"], inp["tr2"])
-        res2 = _run_method(ctx, o2, C03.METHODS[self.K])
+        token = self.g.begin(ctx, self, inp)
+        try:
+            o2 = _second_gr(ctx, inp["o"], inp["tr2"])
+            res2 = _run_method(ctx, o2, C03.METHODS[self.K])
+        finally:
+            self.g.end(ctx, self, inp, token)
         k, B = inp["k"], inp["B"]
         inr = sv.and_(sv.cmp(">=", k, 0), sv.cmp("<", k, B))
         c1, c2 = df_content(res1)["cols"], df_content(res2)["cols"]
         for name, _ in C03.columns(self.K):
-            yield from _related(f"{name}:unchanged-under-translation", inr, c1[name].get((k,)), c2[name].get((k,)))
+            yield from _related(f"{name}:{self.g.what}", inr, c1[name].get((k,)), c2[name].get((k,)))
 
     def replay(self, case, clause, model, seed):
-        return _replay_gr_symmetry(self.K, int(case[2]), seed, "translation")
+        return _replay_gr_symmetry(self.K, int(case[2]), seed, self.g.key)
 
 
 class GrSpeciesSwap(Unit):
@@ -187,6 +197,10 @@ def _replay_gr_symmetry(K, d, seed, kind):
                 pos2 = [p + rng.uniform(-7, 7, size=d) for p in pos]
                 b = getattr(G.gr(build(pos2, types), ppp=ppp, rdelta=rdelta), C03.METHODS[K])()
                 pairs = [(c, c) for c in a.columns]
+            elif kind == "lattice-shift":
+                pos2 = [p + rng.integers(-2, 3, size=(N, d)) @ H for p in pos]
+                b = getattr(G.gr(build(pos2, types), ppp=ppp, rdelta=rdelta), C03.METHODS[K])()
+                pairs = [(c, c) for c in a.columns]
             else:
                 b = getattr(G.gr(build(pos, 3 - types), ppp=ppp, rdelta=rdelta), C03.METHODS[K])()
                 pairs = [("gr", "gr"), ("gr11", "gr22"), ("gr22", "gr11"), ("gr12", "gr12")]
@@ -208,13 +222,19 @@ class WriterTranslation(Unit):
     summaries = C05.PBC_OPAQUE
     timeout = 20
 
-    def __init__(self, which):
+    def __init__(self, which, g=None):
+        import contracts.C07_units as U
         self.which = which
         self.qualname = which
+        self.g = g or U.TRANSLATION
 
     @property
     def name(self):
-        return f"translation:{self.which}"
+        return f"{self.g.key}:{self.which}"
+
+    def geo(self, inp):
+        import contracts.C07_units as U
+        return U.traj_geo(inp)
 
     def cases(self):
         return ["d=2", "d=3"]
@@ -222,13 +242,17 @@ class WriterTranslation(Unit):
     def setup(self, ctx, case):
         unit = {"cutoffneighbors": C05.CutoffNeighbors, "Nnearests": C05.NNearests}[self.which]()
         args, kwargs, inp = unit.setup(ctx, case)
-        tv = z3.Function("TVEC", z3.IntSort(), z3.IntSort(), z3.RealSort())
-        tr2 = inp["tr"].view(pos_map=lambda t, s, i, c, base: sv.add(base, sv.SV(tv(sv.znum(s), sv.znum(c)))))
+        geo = self.geo(inp)
+        tr2 = inp["tr"].view(pos_map=lambda t, s, i, c, base: self.g.pos(geo, s, i, c, True))
         inp.update(args=args, tr2=tr2)
         return args, kwargs, inp
 
+    @property
+    def clause(self):
+        return "rows-identical-under-translation" if self.g.key == "translation" else "rows-identical:" + self.g.what
+
     def clause_names(self, case):
-        return ["rows-identical-under-translation"]
+        return [self.clause]
 
     def ensures(self, ctx, case, inp, out):
         from pyvc.text import Block, Rows, Run, Text, Tok, text_lines
@@ -238,15 +262,17 @@ class WriterTranslation(Unit):
         fv = FuncVal(m, m.defs[self.which])
         args2 = [inp["tr2"].snapshots()] + list(inp["args"][1:3]) + ["nb2.dat"]
         interp = ctx.interp
+        token = self.g.begin(ctx, self, inp)
         interp.depth += 1
         try:
             interp.call_function(fv, args2, {})
         finally:
             interp.depth -= 1
+            self.g.end(ctx, self, inp, token)
         files = [c.data for c in out.state.heap.values() if c.kind == "file" and c.data.get("mode") == "w"]
         f2 = [f for f in files if f.get("path") == "nb2.dat"]
         if f1 is None or len(f2) != 1:
-            yield "rows-identical-under-translation", False
+            yield self.clause, False
             return
         f2 = f2[0]
         s, i = inp["s"], inp["i"]
@@ -268,12 +294,15 @@ class WriterTranslation(Unit):
             a, ra = row_terms(f1)
             b, rb = row_terms(f2)
         except Exception:
-            yield "rows-identical-under-translation", False
+            yield self.clause, False
             return
-        yield "rows-identical-under-translation", sv.implies(sv.and_(ins, ra), sv.and_(*[sv.cmp("==", x, y) for x, y in zip(a, b)]))
+        yield self.clause, sv.implies(sv.and_(ins, ra), sv.and_(*[sv.cmp("==", x, y) for x, y in zip(a, b)]))
 
     def replay(self, case, clause, model, seed):
-        return C05._replay_writer(self.which, int(case[2]), seed)
+        if self.g.key == "translation":
+            return C05._replay_writer(self.which, int(case[2]), seed)
+        import contracts.C07_units as U
+        return U.replay_rel(self.which, self.g.key, seed, case)
 
 
 def lemmas():
@@ -452,9 +481,21 @@ def _relational_units():
         U.PairEntropy(C17.ParticleS2(), T, cases=["d=2/s2-only", "d=3/savegr"] if q else None),
         U.Gyration(C17.Gyration(), T),
         U.DivCurl(C15.DivergenceCurl(), T),
-        # U.Hessian(C11.Diagonalize(), T, cases=["d=2/K=2", "d=3/K=1"]),
+        U.Hessian(C11.Diagonalize(), T, cases=["d=2/K=2", "d=3/K=1"]),
         U.Relaxation(C06.DynRelaxation(), T, cases=["d=2/slow/xu/nocage/all", "d=3/slow/xu/cage/condition", "d=3/fast/x-only/cage/condition"] if q else None),
         U.CondGr(C13.CondGr(), T, cases=["d=2/float", "d=3/bool", "d=3/vector"] if q else [c for c in C13.CondGr().cases() if "badtype" not in c]),
+    ]
+    L = U.LATTICE
+    units += [
+        GrTranslation(1, L), GrTranslation(2, L), WriterTranslation("cutoffneighbors", L), WriterTranslation("Nnearests", L),
+        U.Boo2d(C10.LthOrder(), L, cases=["unweighted/nofile", "weighted/nofile"]),
+        U.Boo3d(C09.QlmQlm(), L),
+        U.Tetra(C17.Tetrahedral(), L),
+        U.PairEntropy(C17.ParticleS2(), L, cases=["d=2/savegr", "d=3/s2-only"] if q else None),
+        U.DivCurl(C15.DivergenceCurl(), L),
+        U.Hessian(C11.Diagonalize(), L, cases=["d=2/K=2", "d=3/K=1"]),
+        U.Relaxation(C06.DynRelaxation(), L, cases=["d=2/slow/x-only/nocage/all", "d=3/slow/xu/cage/condition", "d=3/fast/x-only/cage/condition"] if q else None),
+        U.CondGr(C13.CondGr(), L, cases=["d=2/float", "d=3/bool", "d=3/vector"] if q else [c for c in C13.CondGr().cases() if "badtype" not in c]),
     ]
     return units
 
